@@ -2141,6 +2141,12 @@ class CreateIndexBuilder:
         self._is_unique = False
         self._if_not_exists = False
 
+    def __copy__(self) -> "CreateIndexBuilder":
+        newone = type(self).__new__(type(self))
+        newone.__dict__.update(self.__dict__)
+        newone._columns = copy(self._columns)
+        return newone
+
     @builder
     def create_index(self, index: Union[str, Index]) -> "CreateIndexBuilder":
         self._index = index
